@@ -5,13 +5,13 @@ from ..smodel import *
 from ..poly import Rat, Poly, reindex, diff
 from ..thir import Lib
 
-SFK = 'interp1d::strategies::cubic_spline::CubicSpline::solve_for_k'
-THOMAS = 'interp1d::strategies::cubic_spline::CubicSpline::thomas'
-CALC = 'interp1d::strategies::cubic_spline::CubicSpline::calc_coefficients'
-IB = 'interp1d::strategies::cubic_spline::InternalBoundary'
-SB = 'interp1d::strategies::cubic_spline::SingleBoundary'
-BC = 'interp1d::strategies::cubic_spline::BoundaryCondition'
-RB = 'interp1d::strategies::cubic_spline::RowBoundary'
+SFK = 'CubicSpline::solve_for_k'
+THOMAS = 'CubicSpline::thomas'
+CALC = 'CubicSpline::calc_coefficients'
+IB = 'InternalBoundary'
+SB = 'SingleBoundary'
+BC = 'BoundaryCondition'
+RB = 'RowBoundary'
 A = Rat.atom
 N = A('n')
 
@@ -30,12 +30,68 @@ def single(kind, side):
     return Enum(SB, kind)
 
 
+class BSpec:
+    """a boundary of the solver's private boundary type, described through the public API that produces it"""
+    def __init__(self, kind, *a):
+        self.kind, self.a = kind, a
+
+    def __repr__(self):
+        return "BSpec(%s %s)" % (self.kind, self.a)
+
+
 def mixed(left, right):
-    return Enum(IB, 'Mixed', {'left': single(left, 'l'), 'right': single(right, 'r')})
+    """what `RowBoundary::Mixed{left, right}.into()` gives (the per-lane route)"""
+    return BSpec('mixed', left, right)
+
+
+def internal(kind):
+    """what calc_coefficients hands to the solver for `BoundaryCondition::<kind>` (the whole-set route)"""
+    return BSpec('top', kind)
+
+
+def from_row_boundary_impl(lib):
+    """the (private) conversion RowBoundary -> the solver's boundary type, found by its signature"""
+    import re
+    c = []
+    for d, b in lib.bodies.items():
+        nd = strip_generics(d)
+        if re.match(r'^<\w+ as std::convert::From>::from$', nd) and b.get('params'):
+            p0 = b['params'][0]
+            ty = p0.get('ty', '') if isinstance(p0, dict) else str(p0)
+            if ty.startswith(RB + '<') or ty == RB:
+                c.append(d)
+    return c[0] if len(c) == 1 else None
+
+
+def resolve_boundary(lib, spec):
+    cache = lib.__dict__.setdefault('_boundary_cache', {})
+    key = (spec.kind,) + tuple(spec.a)
+    if key not in cache:
+        if spec.kind == 'mixed':
+            l, r = spec.a
+            imp = from_row_boundary_impl(lib)
+            row = Enum(RB, 'Mixed', {'left': single(l, 'l'), 'right': single(r, 'r')})
+            if imp is not None:
+                cache[key] = deref_all(Interp(lib, KModel()).call_def(imp, [row]))
+            else:
+                cache[key] = Enum(IB, 'Mixed', {'left': single(l, 'l'), 'right': single(r, 'r')})
+        else:
+            m, out, ex, _ = run_calc(lib, spec.a[0])
+            if ex is None and len(m.solve_calls) == 1:
+                cache[key] = deref_all(m.solve_calls[0]['args'][3])
+            else:
+                cache[key] = Enum(IB, spec.a[0])
+    import copy
+    return copy.deepcopy(cache[key])
 
 
 def run_solve(lib, boundary, n=None, **scn):
     b = lib.body(SFK)
+    if isinstance(boundary, BSpec):
+        try:
+            boundary = resolve_boundary(lib, boundary)
+        except (Unsupported, Diverge) as ex:
+            return SModel({'n': n}), None, ex
     scn = dict(scn)
     scn['n'] = n
     m = SModel(scn)
@@ -501,7 +557,7 @@ def proportional(rows_a, rows_b):
 
 def check_periodic(chk, lib, rule, rule_ends):
     where = lib.body(SFK)['span']
-    per = Enum(IB, 'Periodic')
+    per = internal('Periodic')
     # ---- end rows must be equal, checked before anything is solved (both arms)
     for n in (3, None):
         nv = '3' if n == 3 else 'symbolic (>= 4)'
@@ -626,7 +682,7 @@ def kt_row(m, i):
 
 
 # --------------------------------------------------------------------------- calc_coefficients: dispatch, shape check, a/b formulas
-CS = 'interp1d::strategies::cubic_spline::CubicSpline'
+CS = 'CubicSpline'
 
 
 def run_calc(lib, bc, **scn):
@@ -641,8 +697,9 @@ def run_calc(lib, bc, **scn):
     if bc == 'Individual':
         fields = {'0': Obj('data', name='bounds', lead=1, idx=[])}
         m.bounds = fields['0']
-    s = Enum(CS, 'CubicSpline', {'extrapolate': B(False), 'boundary': Enum(BC, bc, fields)})
     try:
+        from ..strategies import spline_builder
+        s = spline_builder(lib, False, bc, order='b', bc_fields=fields)      # the builder as the public API produces it
         out = deref_all(it.call_def(b['def'], [Ref(ValPlace(s)), Ref(ValPlace(x)), Ref(ValPlace(data))]))
         return m, out, None, (x, data)
     except (Unsupported, Diverge) as ex:
@@ -654,6 +711,7 @@ def check_dispatch(chk, lib, rule_tab, rule_shape):
     if not chk.require(b is not None, rule_tab, 'anchor-calc', CALC, "the coefficient routine called by CubicSpline::build exists"):
         return
     where = b['span']
+    seen_kinds = {}
     for bc in ('NotAKnot', 'Natural', 'Clamped', 'Periodic'):
         m, out, ex, (x, data) = run_calc(lib, bc)
         key = 'dispatch-' + bc
@@ -665,9 +723,12 @@ def check_dispatch(chk, lib, rule_tab, rule_shape):
         if ok:
             a = m.solve_calls[0]['args']
             got = a[3].variant if isinstance(a[3], Enum) else None
-            ok = got == bc and a[1] is x and a[2] is data and isinstance(a[0], Obj) and a[0].kind == 'arr2'
-        chk.ob(rule_tab, "BoundaryCondition::%s solves once, for all lanes together, with InternalBoundary::%s on the builder's own axis and data (got %s)" %
-               (bc, bc, got), ok, where, key)
+            # which conditions the solver imposes for the boundary value it receives is decided on the rows it assembles (R3.1 toplevel-*):
+            # here only the wiring: one solve, the builder's own operands, a boundary value of its own for each public kind
+            ok = got is not None and a[3].key() not in seen_kinds and a[1] is x and a[2] is data and isinstance(a[0], Obj) and a[0].kind == 'arr2'
+            seen_kinds[a[3].key()] = bc
+        chk.ob(rule_tab, "BoundaryCondition::%s solves once, for all lanes together, on the builder's own axis and data, with a solver boundary of its own kind (got %s; kinds so far %s)" %
+               (bc, got, sorted(seen_kinds.values())), ok, where, key)
     for okb in (True, False):
         m, out, ex, (x, data) = run_calc(lib, 'Individual', bounds_ok=okb)
         key = 'individual-bounds_ok=%s' % okb
@@ -773,7 +834,7 @@ def check_toplevel_kinds(chk, lib, rule):
                 continue   # the 3-point parabola arm, checked separately
             nv = 'symbolic (>= 4)' if n is None else '3'
             nn = N if n is None else Rat.const(3)
-            m, out, ex = run_solve(lib, Enum(IB, kind), n)
+            m, out, ex = run_solve(lib, internal(kind), n)
             key = 'toplevel-%s-n%s' % (kind, nv)
             if ex is not None:
                 chk.ob(rule, "solve_for_k(InternalBoundary::%s), n %s: %s" % (kind, nv, ex), False, ex.where, key + '-unrecognised')
@@ -785,8 +846,8 @@ def check_toplevel_kinds(chk, lib, rule):
             right_row_check(chk, rule, kind, s, where, nv + ' whole-set ' + kind, nn)
 
 
-FROM_RB = '<interp1d::strategies::cubic_spline::InternalBoundary as std::convert::From>::from'
-SFKI = 'interp1d::strategies::cubic_spline::CubicSpline::solve_for_k_individual'
+FROM_RB = '<InternalBoundary as std::convert::From>::from'
+SFKI = 'CubicSpline::solve_for_k_individual'
 
 
 class IndModel(SModel):
@@ -826,6 +887,9 @@ class IndModel(SModel):
             if last in ('view', 'view_mut', 'into_dyn'):
                 return a0
         if name == 'std::convert::Into::into' and isinstance(a0, Enum) and a0.adt == RB:
+            imp = from_row_boundary_impl(self.interp.lib)
+            if imp is not None:
+                return self.interp.call_def(imp, [a0], e)
             return self.interp.call_norm(FROM_RB, [a0], e)
         if last == 'len_of' and isinstance(a0, Obj) and a0.kind == 'dyn':
             return Num(A('len(%s)' % a0.d['role']))
@@ -925,10 +989,15 @@ def check_dispatcher(chk, lib, rule):
         if ok:
             a = rec[0]['args']
             got = a[3]
-            ok = (a[0] is k and a[1] is x and a[2] is data and isinstance(got, Enum) and got.adt == IB and got.variant == nm)
-            if ok and nm == 'Mixed':
-                l, r = deref_all(got.fields['left']), deref_all(got.fields['right'])
-                ok = (l.variant == 'FirstDeriv' and deref_all(l.fields['0']).r == vl.r and r.variant == 'SecondDeriv' and deref_all(r.fields['0']).r == vr.r)
+            # the element reaches the solver through the one conversion RowBoundary -> solver boundary (whose meaning C03 decides), unchanged
+            imp = from_row_boundary_impl(lib)
+            import copy
+            want = deref_all(Interp(lib, KModel()).call_def(imp, [copy.deepcopy(rb)])) if imp is not None else None
+            ok = (a[0] is k and a[1] is x and a[2] is data and isinstance(got, Enum) and want is not None and got.key() == want.key())
+            if ok and imp is not None and nm != 'Mixed':
+                # sibling agreement: the per-lane conversion and the whole-set dispatch produce the same solver boundary for the same kind
+                top = resolve_boundary(lib, internal(nm))
+                ok = isinstance(top, Enum) and top.key() == got.key()
         chk.ob(rule, "rank <= 1: the lane is solved once with its own data, its own slopes and its own boundary element RowBoundary::%s, converted to the same kind (values kept)" % nm,
                ok, where, 'dispatch-leaf-' + nm)
 
@@ -941,7 +1010,7 @@ def build_checks(chk, lib, rule):
 
 def check_periodic_ends_only(chk, lib, rule):
     where = lib.body(SFK)['span']
-    per = Enum(IB, 'Periodic')
+    per = internal('Periodic')
     for n in (3, None):
         nv = '3' if n == 3 else 'symbolic (>= 4)'
         nn = Rat.const(3) if n == 3 else N
